@@ -132,8 +132,18 @@ def evaluate(res, shs, reqs, rows, mo):
             if ret != 'none' and [e[0] for e in ret] != [j]:
                 fail = f'setter of f{j} returned an entry for another field'; break
             cur[j + 1] = v
-        if fail is None and sx.show(fin) != sx.show(cur) and shapes.canon_value(sh, fin) != shapes.canon_value(sh, cur):
-            fail = 'after the calls the receiver does not hold exactly the given values'
+        if fail is None and sx.show(fin) != sx.show(cur):
+            # renderings are canonical for hash containers and keep the element order of Vec / VecDeque / LinkedList:
+            # an order-preserving container must hold the given elements in the given order, whatever the strategy
+            # "exactly" is up to the field type's own `==` (the only equality the generated code can use): a setter
+            # called with a value that is == to the held one returns before assigning (plain, recurse, recurse+Option),
+            # so a field may hold an == but differently rendered value (0.0 / -0.0, enum differing in nothing `==` sees)
+            bad = [jj for jj, f in enumerate(sh['fields'])
+                   if sx.show(fin[jj + 1]) != sx.show(cur[jj + 1]) and not dcommon.peq_field(f, fin[jj + 1], cur[jj + 1])]
+            if bad:
+                fail = 'after the calls the receiver does not hold exactly the given values (fields %s)' % bad
+            else:
+                hbump(res, 'final:==-but-not-identical')
         if fail is None:
             # replay of all returned entries on a copy of the initial value (computed by the model from the REAL entries being equal)
             rep = sx.field(mm, 'replay')[0]
